@@ -493,8 +493,11 @@ class AlignmentCollector:
                     coverage_dict[pos] > max(AlignmentCollector.ABS_COV_VALLEY, max_cov * AlignmentCollector.REL_COV_VALLEY):
                 max_cov = max(max_cov, coverage_dict[pos])
                 pos += 1
-            new_region = (max(current_start * AbstractAlignmentStorage.COVERAGE_BIN + 1, genomic_region[0]),
-                          min(pos * AbstractAlignmentStorage.COVERAGE_BIN, genomic_region[1]))
+            # the first sub-region starts where the region starts: its first base belongs to it also when the region
+            # starts exactly on a bin boundary
+            region_start = genomic_region[0] if not split_regions else \
+                max(current_start * AbstractAlignmentStorage.COVERAGE_BIN + 1, genomic_region[0])
+            new_region = (region_start, min(pos * AbstractAlignmentStorage.COVERAGE_BIN, genomic_region[1]))
             if new_region[0] <= new_region[1]:
                 split_regions.append(new_region)
             current_start = pos
